@@ -65,6 +65,7 @@ class MidiTrack(object):
         velocity = note.velocity
         if self.change_instrument:
             self.set_instrument(channel, self.instrument)
+            self.set_deltatime(0)
             self.change_instrument = False
 
         assert 0 <= velocity <= 0x7F
@@ -140,6 +141,7 @@ class MidiTrack(object):
     def set_instrument(self, channel, instr, bank=1):
         """Add a program change and bank select event to the track_data."""
         self.track_data += self.select_bank(channel, bank)
+        self.set_deltatime(0)
         self.track_data += self.program_change_event(channel, instr)
 
     def header(self):
